@@ -555,13 +555,27 @@ class SpecGen:
         # constants-only data sheet first (so everything may refer to it)
         if self.data_sheet:
             ds = self.data_sheet
-            w = rnd.randint(2, 3)
-            rows = rnd.randint(2, 3)
+            # (also one row or one column: the used part of A:A / 1:1 is then a single cell)
+            w = rnd.choice((1, 2, 2, 3, 3))
+            rows = rnd.choice((1, 2, 2, 3, 3))
             self.width[ds] = w
             self.filled[ds] = 0
             for i in range(w * rows):
                 a = self.grid_addr(ds, i)
                 last = i == w * rows - 1
+                if i and not last and k.get('ds_formulas', True) and rnd.random() < 0.2:
+                    # a formula inside the whole-row / whole-column ranges: it reads cells
+                    # further up or left on the same sheet only
+                    prev = [self.grid_addr(ds, j) for j in range(i)]
+                    e1 = rnd.choice(prev)
+                    if rnd.random() < 0.5:
+                        self.add({'a': a, 'f': f'={split_addr(e1)[1]}*2', 'p': [e1], 'd': []})
+                    else:
+                        e2 = rnd.choice(prev)
+                        self.add({'a': a, 'f': f'={split_addr(e1)[1]}+{split_addr(e2)[1]}',
+                                  'p': uniq([e1, e2]), 'd': []})
+                    self.filled[ds] = i + 1
+                    continue
                 v = draw_const(rnd, ('num', 'float') if last else
                                ('num', 'num', 'float', 'text', 'bool', 'blank', 'numtext'))
                 self.add({'a': a, 'v': v})
